@@ -818,6 +818,158 @@ def _reserved_names(ctx, model, ce, compile_fn):
            {"predefined": sorted({k for k, _, _ in entries})})
 
 
+def _judge_constant_text(model, cmap, mc):
+    from ..absint import Interp, Obj, Opaque, Raised, StepBound, module_env
+    from .c17 import NUMPY_SUBCLASSES
+    if mc is None or mc.kind != "func":
+        raise AnalysisError("CompileMapper.map_constant not found")
+
+    class Np:
+        """a numpy scalar of some concrete kind"""
+
+        def __init__(self, kind, value):
+            self.kind, self.value = kind, value
+
+        def item(self):
+            return self.value
+
+        def __repr__(self):
+            return f"np.{self.kind}({self.value!r})"
+    up = {"bool_": {"bool_", "generic"},
+          "signedinteger": {"signedinteger", "integer", "number", "generic"},
+          "unsignedinteger": {"unsignedinteger", "integer", "number",
+                              "generic"},
+          "floating": {"floating", "inexact", "number", "generic"},
+          "complexfloating": {"complexfloating", "inexact", "number",
+                              "generic"}}
+    glob = module_env(cmap.module.tree, {})
+    from ..grammar import _consts
+    for k_, v_ in _consts(model, model.repo.module(
+            "pymbolic.mapper.stringifier"), "PREC_").items():
+        glob[k_] = v_
+    class PyType:
+        """int / float / complex / bool as values (entries of a table)"""
+
+        def __init__(self, t):
+            self.t, self.what = t, "class " + t.__name__
+
+        def __call__(self, v):
+            return self.t(v.value if isinstance(v, Np) else v)
+    for t_ in (int, float, complex, bool):
+        glob[t_.__name__] = PyType(t_)
+    # module-level tables (numpy kind -> Python type, ...)
+    it0 = Interp(globals_=glob, max_steps=2000,
+                 attrs=lambda it_, n_, b, at: Opaque(ast.unparse(n_)))
+    for st in cmap.module.tree.body:
+        if isinstance(st, ast.Assign) and len(st.targets) == 1 and isinstance(
+                st.targets[0], ast.Name) and st.targets[0].id not in glob:
+            try:
+                glob[st.targets[0].id] = it0.eval(st.value, glob)
+            except (AnalysisError, Raised, StepBound):
+                pass
+
+    def isinst(it, nd, a, k):
+        v, c = a
+        cs = c if isinstance(c, (tuple, list)) else (c,)
+        names = []
+        for x in cs:
+            w = getattr(x, "what", None)
+            if w is None:
+                raise AnalysisError(f"isinstance(..., {x!r})")
+            names.append(w.replace("class ", "").split(".")[-1].split(" ")[-1])
+        if isinstance(v, Np):
+            return bool(up[v.kind] & set(names))
+        py = {"int": int, "float": float, "complex": complex, "bool": bool,
+              "str": str}
+        return any(nm in py and isinstance(v, py[nm]) for nm in names)
+
+    def conv(t):
+        def f(it, nd, a, k):
+            v = a[0].value if isinstance(a[0], Np) else a[0]
+            return t(v)
+        return f
+
+    def attrs(it, nd, base, attr):
+        if isinstance(base, Opaque) and base.what.startswith("module num"):
+            return Opaque(f"numpy.{attr}")
+        if isinstance(base, Np) and attr == "item":
+            return base.item
+        return Opaque(ast.unparse(nd))
+
+    def resolve(cls, nm):
+        if cls == "__printer__":
+            m_ = model.lookup(cmap, nm)
+            if m_ is not None and m_.kind == "func":
+                return ("func", m_.node)
+        return None
+
+    class _I(Interp):
+        def stmt(self, st, env):
+            if isinstance(st, (ast.Import, ast.ImportFrom)):
+                for al in st.names:
+                    env[(al.asname or al.name).split(".")[0]] = Opaque(
+                        "module " + al.name)
+                return
+            return Interp.stmt(self, st, env)
+    wit = []
+    samples = [("int", 3), ("float", 2.5), ("int", -2), ("complex", 1j),
+               ("numpy.bool_", Np("bool_", True)),
+               ("numpy.int64", Np("signedinteger", 3)),
+               ("numpy.uint8", Np("unsignedinteger", 200)),
+               ("numpy.float64", Np("floating", 2.5)),
+               ("numpy.complex128", Np("complexfloating", 1j))]
+
+    class Other:
+        """a constant of a class registered by the user: written with repr()
+        (str() may be anything)"""
+
+        def __repr__(self):
+            return "Other(1)"
+
+        def __str__(self):
+            return "one"
+    samples.append(("a constant of a user-registered class", Other()))
+    for label, v in samples:
+        it = _I(calls={"isinstance": isinst, "float": conv(float),
+                       "int": conv(int), "complex": conv(complex),
+                       "bool": conv(bool),
+                       "repr": lambda it_, nd, a, k: repr(a[0]),
+                       "getattr": lambda it_, nd, a, k: attrs(
+                           it_, nd, a[0], a[1]) if isinstance(
+                               a[0], (Opaque, Np)) else getattr(a[0], a[1])},
+                attrs=attrs, resolve=resolve, globals_=dict(
+                    glob, numpy=Opaque("module numpy"),
+                    np=Opaque("module numpy")), max_steps=8000)
+        me = Obj("__printer__", {})
+        try:
+            got = it.call_function(mc.node, [me, v, 0], dict(it.globals))
+        except Raised as r:
+            wit.append(f"{label}: raises at line "
+                       f"{getattr(r.node, 'lineno', '?')}")
+            continue
+        except StepBound:
+            wit.append(f"{label}: does not terminate")
+            continue
+        val = v.value if isinstance(v, Np) else v
+        if not isinstance(got, str):
+            wit.append(f"{label}: writes {got!r}")
+            continue
+        if isinstance(v, Other):
+            if got.strip() != "Other(1)":
+                wit.append(f"{label}: writes {got!r}, not its repr()")
+            continue
+        try:
+            back = ast.literal_eval(got.strip())
+        except (ValueError, SyntaxError):
+            wit.append(f"{label}: writes {got!r}, which is not a Python "
+                       "literal (numpy 2 spells its scalars np.int64(3), "
+                       "np.True_: the generated source raises NameError)")
+            continue
+        if back != val or type(back) is not type(val):
+            wit.append(f"{label}: writes {got!r} for the value {val!r}")
+    return wit
+
+
 def _judge_compile(model, ce, mem):
     """_compile interpreted with the dependency mapper, the source printer and
     eval() as hooks: the text handed to eval is
@@ -1145,15 +1297,31 @@ def _compile_structural(ctx, model):
                  and isinstance(c.func, ast.Name) and c.func.id in ("repr", "str")
                  and len(c.args) == 1 and ast.unparse(c.args[0]) == param]
         ok = bool(calls) and all(c.func.id == "repr" for c in calls)
-    ctx.ob("P/compile/constants-by-repr", ok, cmap.loc(),
-           "constants are emitted with repr()" if ok else
-           "CompileMapper.map_constant does not emit repr(constant)")
+    # the judge: the constant handler interpreted on Python numbers and on
+    # numpy scalars of every registered kind -- what it writes is a Python
+    # literal of the number's value
+    kwit = None
+    try:
+        kwit = _judge_constant_text(model, cmap, mc)
+    except AnalysisError as e:
+        ctx.extra["judge_unavailable:CompileMapper.map_constant"] = str(e)
+    if kwit is not None:
+        ctx.ob("P0/compile/constant-text", not kwit, cmap.loc(),
+               "map_constant interpreted on Python numbers and numpy scalars "
+               "(bool_, integer, floating, complexfloating): the text is the "
+               "repr of the Python scalar" if not kwit else
+               "CompileMapper.map_constant: " + "; ".join(kwit[:2]))
+    constants_decided = kwit is not None and not kwit
+    if not constants_decided:
+        ctx.ob("P/compile/constants-by-repr", ok, cmap.loc(),
+               "constants are emitted with repr()" if ok else
+               "CompileMapper.map_constant does not emit repr(constant)")
     # ... and repr() of a numpy scalar is not a Python literal (numpy 2 writes
     # np.int64(3), np.True_): every numpy class that counts as a constant must
     # have been turned into the Python scalar first
     from .c17 import numpy_constants_not_normalised
     registered, missing = numpy_constants_not_normalised(model, mc)
-    if registered:
+    if registered and not constants_decided:
         ctx.ob("T/compile/map_constant/numpy-normalised", not missing, cmap.loc(),
                f"numpy constants {sorted(registered)} are converted to Python "
                "scalars before repr()" if not missing else
@@ -1172,8 +1340,18 @@ def _compile_structural(ctx, model):
            "__getstate__'s tuple does not match _compile's parameters in number "
            "and order, or __setstate__ does not re-invoke _compile(*state)")
     init = ce.members.get("__init__")
-    ok = init is not None and "self._compile(expression, variables)" in \
-        ast.unparse(init.node)
+    ok = False
+    if init is not None and init.kind == "func":
+        prm = [a.arg for a in init.node.args.args]
+        for c in ast.walk(init.node):
+            if isinstance(c, ast.Call) and ast.unparse(c.func) == \
+                    f"{prm[0]}._compile" and len(c.args) == 2 and \
+                    not c.keywords and ast.unparse(c.args[0]) == prm[1]:
+                # the variables as given, or an empty list where none were
+                a2 = c.args[1]
+                names = {x.id for x in ast.walk(a2) if isinstance(x, ast.Name)}
+                ok = names <= {prm[2]} and prm[2] in names if len(prm) > 2 \
+                    else False
     ctx.ob("P/compile/init", ok, ce.loc(),
            "constructor compiles (expression, variables)" if ok else
            "CompiledExpression.__init__ does not call _compile(expression, "
